@@ -44,6 +44,7 @@ Arguments map_eff : simpl never.
 Arguments map_ev : simpl never.
 Arguments drop_req : simpl never.
 Arguments add_aborted : simpl never.
+Arguments push_hout : simpl never.
 Arguments finish_task : simpl never.
 
 (* the part of a command record that no runtime step may change *)
@@ -64,11 +65,12 @@ Section Frame.
   Hypothesis R_note : forall n H, R H (note n H).
   Hypothesis R_set_woken : forall g H, R H (set_woken g H).
   Hypothesis R_push_xready : forall q H, R H (push_xready q H).
-  Hypothesis R_add_chan : forall c H, R H (mkH (chans H ++ [c]) (tfl H) (cmds H) (woken H) (xready H) (aborted H) (log H)).
-  Hypothesis R_add_tflag : forall t H, R H (mkH (chans H) (tfl H ++ [t]) (cmds H) (woken H) (xready H) (aborted H) (log H)).
-  Hypothesis R_add_gen : forall H, R H (mkH (chans H) (tfl H) (cmds H) (woken H ++ [false]) (xready H) (aborted H) (log H)).
+  Hypothesis R_add_chan : forall c H, R H (mkH (chans H ++ [c]) (tfl H) (cmds H) (woken H) (xready H) (aborted H) (log H) (hout H)).
+  Hypothesis R_add_tflag : forall t H, R H (mkH (chans H) (tfl H ++ [t]) (cmds H) (woken H) (xready H) (aborted H) (log H) (hout H)).
+  Hypothesis R_add_gen : forall H, R H (mkH (chans H) (tfl H) (cmds H) (woken H ++ [false]) (xready H) (aborted H) (log H) (hout H)).
   Hypothesis R_add_aborted : forall n H, R H (add_aborted n H).
-  Hypothesis R_add_cmd : forall c H, R H (mkH (chans H) (tfl H) (cmds H ++ [c]) (woken H) (xready H) (aborted H) (log H)).
+  Hypothesis R_push_hout : forall e H, R H (push_hout e H).
+  Hypothesis R_add_cmd : forall c H, R H (mkH (chans H) (tfl H) (cmds H ++ [c]) (woken H) (xready H) (aborted H) (log H) (hout H)).
 
   Lemma R_fold {A} (g : heap -> A -> heap) (l : list A) :
     (forall x H, R H (g H x)) -> forall H, R H (fold_left g l H).
@@ -110,7 +112,7 @@ Section Frame.
   Lemma R_chan_reg ch w H : R H (chan_reg ch w H).
   Proof. unfold chan_reg. apply R_uch. Qed.
   Lemma R_drop_req e H : R H (drop_req e H).
-  Proof. unfold drop_req. destruct (e_res e); [apply R_refl | apply R_chan_drop_tx | apply R_chan_drop_tx]. Qed.
+  Proof. unfold drop_req. destruct (e_res e); [apply R_refl | apply R_chan_drop_tx | apply R_chan_drop_tx | apply R_refl]. Qed.
   Lemma R_kill_flag u H : R H (kill_flag u H).
   Proof. unfold kill_flag. apply R_utf. Qed.
   Lemma R_push_ev c e H : R H (push_ev c e H).
@@ -127,7 +129,7 @@ Section Frame.
     unfold new_cmd, new_tflag. intros E. inversion E; subst; clear E.
     match goal with |- R H (fold_left ?g ex ?Hb) => eapply R_trans; [|apply (R_fold g)] end.
     - eapply R_trans; [apply R_add_tflag|].
-      match goal with |- R ?H0 (mkH _ _ (_ ++ [?c]) _ _ _ _) => exact (R_add_cmd c H0) end.
+      match goal with |- R ?H0 (mkH _ _ (_ ++ [?c]) _ _ _ _ _) => exact (R_add_cmd c H0) end.
     - intros t Hh. cbv beta iota.
       eapply R_trans; [apply R_add_tflag|]. apply R_ucmd; solve_good.
   Qed.
@@ -162,6 +164,7 @@ Section Frame.
       + destruct (f_leaf fs); try apply R_refl.
         * destruct dead; [apply R_refl | apply R_chan_drop_rx].
         * apply IHcmd.
+        * apply R_chan_drop_rx.
         * eapply R_trans; apply R_sub_drop.
         * eapply R_trans; apply R_sub_drop.
       + intros fr Hh. apply R_chan_drop_rx.
@@ -213,7 +216,7 @@ Section Frame.
     repeat split.
     - (* poll *)
       intros c w fs H r H' E. cbn [step_funs rpoll] in E. unfold poll_body in E.
-      destruct (f_leaf fs) as [t|sent dead tg v ch x k| |u k|cid meff mev k|n k|qa qb x1 x2 k|qa qb x k] eqn:EL.
+      destruct (f_leaf fs) as [t|sent dead tg v ch x k| |u k|cid meff mev k|n k|lsent ltg lv lch lx k|qa qb x1 x2 k|qa qb x k] eqn:EL.
       + (* LRun *)
         destruct t.
         * destruct (f_stack fs); [inversion E; subst; apply R_refl | apply IHp in E; exact E].
@@ -226,6 +229,7 @@ Section Frame.
         * apply IHp in E. exact E.
         * apply IHp in E. eapply R_trans; [|exact E]. rsolve.
         * apply IHp in E. exact E.
+        * destruct (new_chan H) as [ch H1] eqn:E1. apply R_new_chan in E1. apply IHp in E. eapply R_trans; eassumption.
         * apply IHp in E. eapply R_trans; [apply R_add_aborted | exact E].
         * destruct (new_chan H) as [ch1 H1] eqn:E1. destruct (new_chan H1) as [ch2 H2] eqn:E2.
           apply R_new_chan in E1. apply R_new_chan in E2. apply IHp in E.
@@ -261,6 +265,12 @@ Section Frame.
         * apply IHp in E. eapply R_trans; [exact E1|]. eapply R_trans; [|exact E]. rsolve.
       + (* LYield *)
         destruct n; [apply IHp in E; exact E|]. inversion E; subst. rsolve.
+      + (* LLeg *)
+        set (H1 := if lsent then H else push_hout (mkEff ltg lv [] (RLegacy lch)) H) in *.
+        assert (R1 : R H H1) by (subst H1; destruct lsent; [apply R_refl | apply R_push_hout]).
+        destruct (ch_buf (gch lch H1)).
+        * inversion E; subst. eapply R_trans; [exact R1 | apply R_chan_reg].
+        * apply IHp in E. eapply R_trans; [exact R1|]. eapply R_trans; [apply R_chan_drop_rx | exact E].
       + (* LBoth *)
         destruct (sub_poll c w qa H) as [a' H1] eqn:E1. destruct (sub_poll c w qb H1) as [b' H2] eqn:E2.
         apply R_sub_poll in E1. apply R_sub_poll in E2.
